@@ -214,9 +214,11 @@ C06_RecvGuard(cfg, obs) ==
   /\ \A n \in Idx(obs) : obs[n].k = "deliver" =>
         LastIdx(obs, n, LAMBDA e : IsOutSes(e) /\ e.st = "established") > 0
   /\ \A n \in Idx(obs) :
-        (obs[n].k = "in" /\ obs[n].kind \in DataKinds /\
+        (obs[n].k = "in" /\ obs[n].kind \in DataKinds \cup {"hybrid"} /\
          LastIdx(obs, n, LAMBDA e : IsOutSes(e) /\ e.st = "established") = 0) =>
-          \A m \in (n + 1) .. Len(obs) : ~EstClaim(obs[m]) /\ obs[m].k # "deliver"
+          \A m \in (n + 1) .. Len(obs) : /\ ~EstClaim(obs[m]) /\ obs[m].k # "deliver"
+                                         \* the handshake is over: nothing but a refusal is said any more
+                                         /\ (IsOutSes(obs[m]) => obs[m].st = "failed")
 
 -----------------------------------------------------------------------------
 (* C14 — a connection that fails to establish is released (Server flavour)   *)
